@@ -12,6 +12,7 @@ import (
 	"sigs.k8s.io/controller-runtime/pkg/client"
 
 	"package-operator.run/internal/apis/manifests"
+	"package-operator.run/internal/packages/internal/packagerender"
 	"package-operator.run/internal/packages/internal/packagetypes"
 )
 
@@ -19,6 +20,7 @@ import (
 var DefaultObjectValidators = ObjectValidatorList{
 	&ObjectDuplicateValidator{}, &ObjectGVKValidator{},
 	&ObjectLabelsValidator{}, &ObjectPhaseAnnotationValidator{},
+	&ObjectConditionMapAnnotationValidator{},
 }
 
 // ObjectValidatorList runs a list of validators and joins all errors.
@@ -186,6 +188,34 @@ func (*ObjectLabelsValidator) validate(
 		return packagetypes.ViolationError{
 			Reason:  packagetypes.ViolationReasonLabelsInvalid,
 			Details: errList.ToAggregate().Error(),
+			Path:    path,
+			Index:   ptr.To(index),
+		}
+	}
+	return nil
+}
+
+// Validates that the condition-map annotation, if present, can be parsed.
+type ObjectConditionMapAnnotationValidator struct{}
+
+var _ packagetypes.ObjectValidator = (*ObjectConditionMapAnnotationValidator)(nil)
+
+func (v *ObjectConditionMapAnnotationValidator) ValidateObjects(
+	ctx context.Context,
+	manifest *manifests.PackageManifest,
+	objects map[string][]unstructured.Unstructured,
+) error {
+	return ValidateEachObject(ctx, manifest, objects, v.validate)
+}
+
+func (*ObjectConditionMapAnnotationValidator) validate(
+	_ context.Context, path string, index int,
+	obj unstructured.Unstructured, _ *manifests.PackageManifest,
+) error {
+	if err := packagerender.ValidateConditionMapAnnotation(&obj); err != nil {
+		return packagetypes.ViolationError{
+			Reason:  packagetypes.ViolationReasonInvalidConditionMap,
+			Details: err.Error(),
 			Path:    path,
 			Index:   ptr.To(index),
 		}
